@@ -247,11 +247,15 @@ fn body15(sched: &Arc<Sched>, sc: &Sc15, scratch: &PathBuf) -> (Execution, Verdi
             let map = map.clone();
             let errors = errors.clone();
             let seen = seen.clone();
+            let session0 = history.read().session();
             sched.spawn("H", move || {
                 let err = |e: String| errors.lock().unwrap().push(e);
                 let mut last: Option<(String, u32)> = None;
                 for _round in 0..2 {
                     let a = httpd.get("/json", &[]);
+                    if !httpd.history.ready() && a.status != 503 {
+                        err(format!("served-before-first-validation: /json answered {} before the first validation completed", a.status));
+                    }
                     match a.status {
                         503 => { seen.lock().unwrap().insert("http:503".into()); }
                         200 => {
@@ -271,12 +275,20 @@ fn body15(sched: &Arc<Sched>, sc: &Sc15, scratch: &PathBuf) -> (Execution, Verdi
                         }
                         other => err(format!("http-status: /json answered {other}")),
                     }
-                    // delta from the last seen version
+                    // delta from the last seen version; a client that has
+                    // seen nothing yet presents the session the (ungated)
+                    // notify endpoint hands out, with serial 0
                     let uri = match last.as_ref() {
                         Some((session, serial)) => format!("/json-delta?session={session}&serial={serial}"),
-                        None => "/json-delta".to_string(),
+                        None => format!("/json-delta?session={session0}&serial=0"),
                     };
                     let a = httpd.get(&uri, &[]);
+                    // Readiness is monotonic: not ready after the answer
+                    // means not ready while it was produced.
+                    let ready_after = httpd.history.ready();
+                    if !ready_after && a.status != 503 {
+                        err(format!("served-before-first-validation: {uri} answered {} before the first validation completed", a.status));
+                    }
                     match a.status {
                         503 => { seen.lock().unwrap().insert("http:delta503".into()); }
                         200 => {
@@ -460,15 +472,24 @@ fn body16(sched: &Arc<Sched>, sc: &Sc16, scratch: &PathBuf) -> (Execution, Verdi
 //------------ C17 -----------------------------------------------------------
 
 #[derive(Clone, Debug)]
-struct Sc17 { name: &'static str, seq: Vec<usize>, must_return: bool, stale_request: bool }
+struct Sc17 { name: &'static str, initial: Vec<usize>, seq: Vec<usize>, must_return: bool, session_offset: i64, serial: u32 }
 
 fn scenarios17(_thorough: bool) -> Vec<Sc17> {
+    let sc = |name, initial: &[usize], seq: &[usize], must_return, session_offset, serial| Sc17 {
+        name, initial: initial.to_vec(), seq: seq.to_vec(), must_return, session_offset, serial
+    };
     vec![
-        Sc17 { name: "change", seq: vec![1], must_return: true, stale_request: false },
-        Sc17 { name: "same-change", seq: vec![0, 1], must_return: true, stale_request: false },
-        Sc17 { name: "change-change", seq: vec![1, 2], must_return: true, stale_request: false },
-        Sc17 { name: "no-change", seq: vec![0], must_return: false, stale_request: false },
-        Sc17 { name: "already-stale", seq: vec![0], must_return: true, stale_request: true },
+        sc("change", &[0], &[1], true, 0, 0),
+        sc("withdraw-only", &[1], &[0], true, 0, 0),
+        sc("replace", &[0], &[2], true, 0, 0),
+        sc("same-change", &[0], &[0, 1], true, 0, 0),
+        sc("change-change", &[0], &[1, 2], true, 0, 0),
+        sc("no-change", &[0], &[0], false, 0, 0),
+        // the served version is already serial 1 when (session, 0) arrives
+        sc("already-stale", &[0, 1], &[1], true, 0, 0),
+        // right serial, but a session this instance never had
+        sc("foreign-session", &[0, 1], &[1], true, -3600, 1),
+        sc("future-serial", &[0], &[0], true, 0, 7),
     ]
 }
 
@@ -481,15 +502,16 @@ fn body17(sched: &Arc<Sched>, sc: &Sc17, scratch: &PathBuf) -> (Execution, Verdi
     with_env(scratch, |env| {
         let history = SharedHistory::from_config(&env.config);
         let httpd = Arc::new(Httpd::new(&env.config, history.clone()));
-        // Version 0 is D0; for the stale request the server is already at 1.
-        install_initial(env, &history, &httpd.notify, if sc.stale_request { &[0, 1] } else { &[0] });
+        install_initial(env, &history, &httpd.notify, &sc.initial);
         let (session, _) = history.read().session_and_serial();
+        let session = (session as i64 + sc.session_offset) as u64;
+        let serial = sc.serial;
         let errors: Arc<Mutex<Vec<String>>> = Arc::new(Mutex::new(Vec::new()));
         let done = Arc::new(AtomicBool::new(false));
         let result: Arc<Mutex<Option<String>>> = Arc::new(Mutex::new(None));
         sched.spawn("U", updater(
             env.config.clone(), env.engine, history.clone(), httpd.notify.clone(),
-            if sc.stale_request { vec![1] } else { sc.seq.clone() }, false, done.clone(), errors.clone()
+            sc.seq.clone(), false, done.clone(), errors.clone()
         ));
         {
             let httpd = httpd.clone();
@@ -497,7 +519,7 @@ fn body17(sched: &Arc<Sched>, sc: &Sc17, scratch: &PathBuf) -> (Execution, Verdi
             let result = result.clone();
             let errors = errors.clone();
             sched.spawn("N", move || {
-                let uri = format!("/json-delta/notify?session={session}&serial=0");
+                let uri = format!("/json-delta/notify?session={session}&serial={serial}");
                 let flag = Arc::new(FlagWaker(AtomicBool::new(false)));
                 let waker = Waker::from(flag.clone());
                 let mut fut: Pin<Box<dyn Future<Output = Answer> + '_>> =
@@ -547,7 +569,7 @@ fn body17(sched: &Arc<Sched>, sc: &Sc17, scratch: &PathBuf) -> (Execution, Verdi
             let pending = res == "pending-at-end";
             if sc.must_return && pending {
                 errors.lock().unwrap().push(format!(
-                    "lost-notification: the served version differs from the presented one (session {session}, serial 0) but the notify request is still waiting after all updates finished"
+                    "lost-notification: the served version differs from the presented one (session {session}, serial {serial}) but the notify request is still waiting after all updates finished"
                 ));
             }
             if !sc.must_return && !pending {
@@ -663,9 +685,11 @@ pub fn run_c17(ctx: &Ctx) -> Report {
         updater is done, then polls a last time; thread U runs the real \
         update sequence incl. the notification; scheduling point between \
         the handler's version check and its subscription; scenarios: \
-        change, no-change+change, two changes (must return), no change \
-        (must keep waiting), request already stale on arrival (must return \
-        at once); all interleavings within the bound".into();
+        announce-only change, withdraw-only change, replacement, \
+        no-change+change, two changes (must return), no change (must keep \
+        waiting), request already stale on arrival, request with a \
+        foreign session and the current serial, request with a future \
+        serial (must return at once); all interleavings within the bound".into();
     let scratch = ctx.scratch.clone();
     let hs = scenarios17(ctx.tier.thorough()).into_iter().map(|sc| {
         let scratch = scratch.clone();
